@@ -6,7 +6,7 @@
 (*                                                                         *)
 (* A method body is a list of ITEMS; what matters of an item is its size   *)
 (* in bytes and the items it designates:                                   *)
-(*    [k |-> "pad",  n |-> N, t |-> <<>>]     N one-byte instructions       *)
+(*    [k |-> "pad",  n |-> N, t |-> <<>>]     N bytes of other instructions *)
 (*    [k |-> "grow", n |-> 3, t |-> <<>>]     an `ldc` written as `ldc_w`   *)
 (*    [k |-> "if" | "goto" | "jsr", n |-> 0, t |-> <<target>>]              *)
 (*    [k |-> "tsw" | "lsw", n |-> 0, t |-> <<default, arm, ...>>]           *)
@@ -103,7 +103,10 @@ Emit(i) ==
             IF IsJump(it) THEN
                 LET e == JumpEmit(i, it, pos, Append(offsetOf, pos), wide) IN
                 IF e.ovf THEN Stop("overflow") ELSE Push(e)
-            (* a pad is it.n one-byte instructions: each of them passes the u16 check *)
+            (* a pad stands for several instructions, each of which passes the u16   *)
+            (* check at its start; with one-byte instructions the last one starts at *)
+            (* pos + n - 1.  (Whichever instruction trips the check, or the           *)
+            (* code_length check at the end: the outcome is the same clean error.)    *)
             ELSE IF it.k = "pad" /\ pos + it.n - 1 > U16MAX THEN Stop("err")
             ELSE Push(Rec(it.n, "plain", pos, <<>>, 0, 0, <<>>, FALSE))
 
